@@ -130,6 +130,8 @@ void build_alphabets() {
   // f(x) -> y, local z; the formal x is never assigned
   FS = {skip(), assign(VY, lin({{1, VX}})), assign(VY, lin({{1, VX}}, 1)), assign(VY, lin({}, 0)), assign(VZ, lin({{1, VX}}, -1)),
         call("f", VY, VZ), call("g", VY, VX)};
+  // f also calls the two-output function h (a callee outside f's recursive component that main calls too)
+  FS.push_back(call2("h", VZ, VY, VX, VX));
   // an assertion inside the callee: it is checked once per calling context, the verdicts of one location accumulate
   if (PROP == "C02" || PROP == "C09") FS.push_back(assertion(cst({{1, VX}}, 0, C_LEQ), 21));
   if (th) { FS.push_back(assign(VY, lin({{1, VY}}, 1))); FS.push_back(call("f", VY, VX)); FS.push_back(havoc(VY)); FS.push_back(assign(VY, lin({{1, VZ}}))); }
@@ -679,14 +681,32 @@ void run_program(const ProgId &id, const std::string &only_dom) {
       }
       if (PROP == "C10" || PROP == "C02" || PROP == "C05") { // bottom-up + top-down analyzer
         if (entries.size() != 1 || entries[0] != 0) continue; // documented limitation: a single entry point (main)
+        // The order of the cfgs handed to the call graph decides vertex numbers, hence the order of the out-edges and of
+        // the SCC / topological traversals: recursive programs with four functions are analysed under every order.
+        std::vector<std::vector<int>> orders;
+        {
+          std::vector<int> idn;
+          for (size_t i = 0; i < refs.size(); i++) idn.push_back((int)i);
+          orders.push_back(idn);
+          if (rec && refs.size() >= 4 && (PROP == "C10" || th)) {
+            std::vector<int> pm = idn;
+            while (std::next_permutation(pm.begin(), pm.end())) orders.push_back(pm);
+          }
+        }
+        for (auto &ord : orders)
         for (auto &dc2 : DOMS) {
           if (!only_dom.empty() && dc2.e->name != only_dom && false) continue;
+          if (&ord != &orders[0] && &dc2 != &DOMS[0]) continue; // other orders: one forward domain
+          std::vector<z_cfg_ref_t> refs_ord;
+          std::string ordstr;
+          for (int i : ord) { refs_ord.push_back(refs[i]); ordstr += std::to_string(i); }
           for (int fpi = 0; fpi < (th ? 3 : 1); fpi++) {
+            if (&ord != &orders[0] && fpi > 0) continue;
             std::string ctx = "[summary domain " + dc.e->name + " " + dc.cfg.name + ", forward domain " + dc2.e->name + " " + dc2.cfg.name +
-                              " fp#" + std::to_string(fpi) + " init=" + in.name + "] " + P.str();
+                              " fp#" + std::to_string(fpi) + " cfg-order=" + ordstr + " init=" + in.name + "] " + P.str();
             std::string cspec = spec + "|" + dc.e->name + "|" + dc.cfg.name;
             try {
-              cg_t cg(refs);
+              cg_t cg(refs_ord);
               bu_params_t params;
               params.run_checker = false;
               if (fpi == 1) { params.widening_delay = 0; params.descending_iters = 0; params.thresholds_size = 0; }
@@ -797,7 +817,8 @@ int main(int argc, char **argv) {
                       for (int g = -1; g < NG && !cut; g++)
                        for (int h = -1; h < NH; h++) {
                         // cheap pre-filter: h is part of the program iff the second call of main is an h call
-                        if ((h >= 0) != mentions(C2[c2], "h")) continue;
+                        const bool want_h = mentions(C2[c2], "h") || mentions(FS[s1], "h") || mentions(FS[s2], "h") || (fshape && mentions(FS[s3], "h"));
+                        if ((h >= 0) != want_h) continue;
                         // quick tier: programs with h use the straight-line f only; the third statement of the branching f
                         // ranges over {skip, y:=x+1, y:=f(z), y:=g(x)}
                         if (!th && h >= 0 && fshape != 0) continue;
